@@ -36,8 +36,9 @@ ASSUMPTIONS = [
     'dict keys and set elements are atoms; no complex numbers, frozensets, functions, types',
     'a sub-object occurring twice in the object graph is printed twice and rebuilt as two equal objects: the '
     'comparison is by parameter values, object identity (sharing) is not part of the property',
-    'single-threaded: the recursion guard of pprint/__repr__ (keyed per thread) is not exercised from a second '
-    'thread (seeded mutant C20-r3t3 is outside what this check can see)',
+    'two threads only in this form: when the top object has a string-valued parameter, its text is taken on the '
+    'main thread while a second thread is parked inside pprint() of the same object (the string is a str subclass '
+    'whose repr waits); other interleavings are not exercised',
     'script_repr() text is evaluated with only the module roots bound (what its import lines provide), '
     '.param.pprint() text with the class names bound; the Lean reader accepts both spellings',
     'states are those reachable by one constructor call, possibly after class-level defaults were re-assigned '
@@ -482,10 +483,44 @@ def _same(param, a, b, path='value'):
             if d:
                 return d
         return None
-    if type(a) is type(b) or (isinstance(a, (int, float)) and isinstance(b, (int, float))):
+    if type(a) is type(b) or (isinstance(a, (int, float)) and isinstance(b, (int, float))) \
+            or (isinstance(a, str) and isinstance(b, str)):
         if a == b:
             return None
     return f'{path}: {b!r} instead of {a!r}'[:200]
+
+
+class _Gate(str):
+    """a string value whose repr() parks the helper thread: lets the main thread print an object while another
+    thread is in the middle of printing the very same object (deterministically, no timing involved)"""
+    helper = None
+    parked = None
+    release = None
+
+    def __repr__(self):
+        import threading
+        if _Gate.helper is not None and threading.current_thread() is _Gate.helper and not _Gate.parked.is_set():
+            _Gate.parked.set()
+            _Gate.release.wait(5)
+        return str.__repr__(self)
+
+
+def _gated(param, obj, fn):
+    """fn(obj) on the main thread while a second thread is parked inside obj.param.pprint()"""
+    import threading
+    _Gate.parked, _Gate.release = threading.Event(), threading.Event()
+    done = []
+    th = threading.Thread(target=lambda: done.append(obj.param.pprint()))
+    _Gate.helper = th
+    th.start()
+    try:
+        while not _Gate.parked.is_set() and th.is_alive():       # parked, or finished without meeting the gate
+            _Gate.parked.wait(0.0005)
+        return fn(obj)
+    finally:
+        _Gate.release.set()
+        th.join(5)
+        _Gate.helper = None
 
 
 def run_impl(case):
@@ -493,11 +528,19 @@ def run_impl(case):
         env = Env(case)
         param = env.param
         obj = env.build(case['build'])
+        # one plain-string parameter value of the top object becomes a gate (equal string, same repr)
+        gate = None
+        for k in obj.param.objects('existing'):
+            v = getattr(obj, k)
+            if k != 'name' and type(v) is str and not obj.param[k].constant:
+                setattr(obj, k, _Gate(v))
+                gate = k
+                break
         out = {'classes': env.class_table(), 'state': env.state_of(obj)}
         for key, fn in (('pp', lambda o: o.param.pprint()),
                         ('sr', lambda o: param.script_repr(o, show_imports=False))):
             try:
-                text = fn(obj)
+                text = _gated(param, obj, fn) if gate else fn(obj)
             except Exception as e:
                 out[key] = {'toks': [], 'tt': None, 'direct': f'printer raised {type(e).__name__}'}
                 continue
